@@ -125,15 +125,17 @@ def strings(alpha, maxlen, minlen=0):
 
 
 def _embed(syntax, abbrs, ctxs, family):
+    lefts = sorted(set('' if prefix else left for left, prefix, right in ctxs))
     for a in abbrs:
+        fam = dict((l, _family(syntax, l, a)) for l in lefts)
         for left, prefix, right in ctxs:
-            if _family(syntax, '' if prefix else left, a) == family:
+            if fam['' if prefix else left] == family:
                 yield (syntax, left, prefix, a, right)
 
 
 def run(tier, seed):
     quick = tier == 'quick'
-    ll, nl, nrand, maxel = (4, 5, 3000, 6) if quick else (5, 7, 20000, 8)
+    ll, nl, nrand, maxel = (4, 5, 3000, 6) if quick else (5, 6, 10000, 8)
     rng = random.Random(seed)
     out = []
     nopt = len(OPTION_SETS)
@@ -186,7 +188,7 @@ def run(tier, seed):
     c = Clause('roundtrip-tag-lookalike', 'B',
                'the abbreviations of the two markup clauses above for which c11_gen.tag_lookalike(\'\', abbr) holds: the text in '
                'front of one of their child operators ends like an HTML tag with an unquoted last attribute (`li[title=x]*3>a`)',
-               'same pools and contexts as roundtrip-markup and roundtrip-markup-random', rule, exhaustive=True)
+               'same pools and contexts as roundtrip-markup and roundtrip-markup-random', rule, exhaustive=False)
     run_parallel(c, 'bounded.c11', 'check_roundtrip', _embed('markup', markup + rnd, ctxs, 'is_html-heuristic'), chunk=1000)
     out.append(c.done())
 
@@ -194,7 +196,7 @@ def run(tier, seed):
                'the (left context, abbreviation) pairs of the two markup clauses above that look like a tag end only together '
                'with the left context: the left tag ends with an unquoted attribute value (`<a href=x>`) and the abbreviation '
                'has a child operator (`<a href=x>#id>a`)',
-               'same pools and contexts as roundtrip-markup and roundtrip-markup-random', rule, exhaustive=True)
+               'same pools and contexts as roundtrip-markup and roundtrip-markup-random', rule, exhaustive=False)
     run_parallel(c, 'bounded.c11', 'check_roundtrip', _embed('markup', markup + rnd, ctxs, 'is_html-unquoted-value'), chunk=1000)
     out.append(c.done())
 
